@@ -12,6 +12,11 @@ import RV.Base.Proto
     has g s p o                          -> 0 | 1
     tri g s p o                          -> matching triples, sorted, duplicates kept:  s,p,o s,p,o …
     ulen | utri s p o                    -> the same for the store's union view (context None)
+  Store API called directly on the `Memory` (c = a graph of the store, or `*` = None):
+    madd c s p o | mremove c s p o | addgraph k | rmgraph k       -> ok | error
+    mtri c s p o                         -> store.triples(pattern, c):  s,p,o@k1+k2 …  (triple @ its graphs)
+    mlen c                               -> store.__len__(c)
+    ctxs s p o                           -> store.contexts(pattern)  (`* * *` = all registered graphs)
     bin OP g h      (OP = add|sub|mul|xor)  -> triples of the new graph, sorted
     iopen k g s p o                      -> ok            (generator k starts now)
     iyield k s p o                       -> adm | NOT-adm (could the machine yield this triple now?)
@@ -33,6 +38,11 @@ def tripleLt (a b : Triple) : Bool := lexLt [a.1, a.2.1, a.2.2] [b.1, b.2.1, b.2
 
 def showTriples (ts : List Triple) : String :=
   " ".intercalate ((sortBy tripleLt ts).map (fun t => showNats [t.1, t.2.1, t.2.2]))
+
+/-- `s,p,o@k1+k2 …` : each triple with the graphs the store reports for it (sorted, duplicates kept) -/
+def showTriplesC (es : List (Triple × List Nat)) : String :=
+  " ".intercalate ((sortBy (fun a b => tripleLt a.1 b.1) es).map (fun e =>
+    showNats [e.1.1, e.1.2.1, e.1.2.2] ++ "@" ++ "+".intercalate ((sortBy (fun x y => x < y) e.2).map toString)))
 
 def triple? (a b c : String) : Option Triple := do
   let a ← a.toNat?; let b ← b.toNat?; let c ← c.toNat?
@@ -140,6 +150,34 @@ def step (d : DS) : List String → DS × String
     match g.toNat?, pat? a b c with
     | some g, some p => (d, if triplesRaises d.m p then "error" else showTriples (triples d.m p (some g)))
     | _, _ => (d, "bad-op")
+  | ["madd", c, a, b, c'] =>
+    match c.toNat?, triple? a b c' with
+    | some c, some t => d.mut (d.m.add t c)
+    | _, _ => (d, "bad-op")
+  | ["mremove", c, a, b, c'] =>
+    match optNat? c, pat? a b c' with
+    | some c, some p => d.mut (d.m.remove p c)
+    | _, _ => (d, "bad-op")
+  | ["addgraph", k] =>
+    match k.toNat? with
+    | some k => d.mut (d.m.addGraph k)
+    | none => (d, "bad-op")
+  | ["rmgraph", k] =>
+    match k.toNat? with
+    | some k => d.mut (d.m.removeGraph k)
+    | none => (d, "bad-op")
+  | ["mtri", c, a, b, c'] =>
+    match optNat? c, pat? a b c' with
+    | some c, some p => (d, if triplesRaises d.m p then "error" else showTriplesC (d.m.triplesC p c))
+    | _, _ => (d, "bad-op")
+  | ["mlen", c] =>
+    match optNat? c with
+    | some c => (d, toString (d.m.len c))
+    | none => (d, "bad-op")
+  | ["ctxs", a, b, c] =>
+    match pat? a b c with
+    | some p => (d, showNats (sortBy (fun x y => x < y) (d.m.contexts p)))
+    | none => (d, "bad-op")
   | ["ulen"] => (d, toString (d.m.len none))
   | ["utri", a, b, c] =>
     match pat? a b c with
